@@ -115,3 +115,78 @@ def drive_retrieval_clients(ctx, tier):
         _retrieve(g['target'])
         for c in g.get('callee_objs', ()):
             _retrieve(c)
+
+
+def drive_modifiers(ctx, tier):
+    """Provenance of sigtools.modifiers wrapper objects: single and stacked layers, annotate
+    innermost or on top, the same raw function wrapped by two separate wrappers, bound copies,
+    partial objects over wrappers, and the algebra applied to what they report; every object is
+    retrieved again after the others were used."""
+    import functools
+    import itertools
+    import sigtools
+    from sigtools import modifiers, signatures as S
+    rnd = ctx.rng('modifiers-provenance')
+    U = [p for p in sigs.U(('a', 'b', 'c'), 3, stars=sigs.STARS2[:1]) if any(x[1] == PK for x in p)]
+    n = {'quick': 250, 'thorough': 6000}[tier] // ctx.nshards
+    count = itertools.count()
+
+    def layer(obj, pk):
+        deco = rnd.choice((lambda: modifiers.kwoargs(pk[-1]), lambda: modifiers.posoargs(end=pk[0]),
+                           lambda: modifiers.autokwoargs, lambda: modifiers.kwoargs(start=pk[-1])))
+        try:
+            return deco()(obj)
+        except ValueError:
+            return obj
+
+    def look(o):
+        for retr in (S.signature, sigtools.signature):
+            try:
+                retr(o)
+            except Exception:
+                pass
+
+    for _ in range(n):
+        if ctx.out_of_time('modifier wrappers'):
+            break
+        p = rnd.choice(U)
+        pk = [x[0] for x in p if x[1] == PK]
+        f = sigs.make_func(p, name='modf%d' % next(count))
+        ctx.count('driver.modifier_objects')
+        if rnd.random() < 0.4:
+            f = modifiers.annotate(**{pk[0]: 5})(f)         # a stored signature on the raw function itself
+        objs = [layer(f, pk)]
+        if rnd.random() < 0.5:
+            objs.append(layer(objs[0], pk))                  # stacked
+        if rnd.random() < 0.5:
+            objs.append(layer(f, pk))                        # a second, separate wrapper of the same function
+        if rnd.random() < 0.3 and objs[-1] is not f:
+            try:
+                modifiers.annotate(**{pk[-1]: 6})(objs[-1])  # annotate on top
+            except ValueError:
+                pass
+        for o in objs:
+            look(o)
+        for o in objs:
+            cap = sigs.positional_capacity(p)
+            try:
+                S.signature(functools.partial(o, *([0] * rnd.randint(0, min(cap, 2)))))
+            except Exception:
+                pass
+            if rnd.random() < 0.5:
+                try:
+                    S.signature(functools.partial(o, **{pk[-1]: 1}))
+                except Exception:
+                    pass
+        sigs_ = []
+        for o in objs + [f]:
+            try:
+                sigs_.append(S.signature(o))
+            except Exception:
+                pass
+        if len(sigs_) >= 2:
+            w_alg.call(S.merge, sigs_[0], sigs_[1])
+            w_alg.call(S.forwards, sigs_[0], sigs_[-1])
+            w_alg.call(S.mask, sigs_[0], 1)
+        for o in objs + [f]:
+            look(o)                                          # ... and everything once more, afterwards
